@@ -19,6 +19,8 @@ import (
 	distrtypes "github.com/cosmos/cosmos-sdk/x/distribution/types"
 	stakingtypes "github.com/cosmos/cosmos-sdk/x/staking/types"
 	"github.com/ethereum/go-ethereum/common"
+	ethcrypto "github.com/ethereum/go-ethereum/crypto"
+	vestingtypes "github.com/haqq-network/haqq/x/vesting/types"
 	"pgregory.net/rapid"
 
 	"verif/chain"
@@ -34,6 +36,7 @@ var (
 	pxThird  = chain.Acct("px-third")
 	pxW      = chain.Acct("px-withdraw")
 	pxOther  = chain.Acct("px-other")
+	pxVest   = chain.Acct("px-vest") // clawback vesting account: 1,000,000 ISLM free + 500,000 ISLM locked for five and unvested for ten years
 )
 
 func pxFrameAcc(i int) sdk.AccAddress { return sdk.AccAddress(evmasm.FrameAddr(i).Bytes()) }
@@ -51,7 +54,7 @@ func pxBase() *chain.Node {
 	return baseChain("px", func() *chain.Node {
 		h := History{NumVals: 3, Coinomics: true}
 		o := hOpts(h)
-		o.Accounts = []chain.Account{pxSigner, pxThird, pxW, pxOther}
+		o.Accounts = []chain.Account{pxSigner, pxThird, pxW, pxOther, pxVest}
 		n := chain.NewNode(o)
 		n.BeginBlock(chain.BlockIn{})
 		ctx := n.Ctx()
@@ -77,6 +80,18 @@ func pxBase() *chain.Node {
 		send(pxSigner, stakingtypes.NewMsgUndelegate(pxSigner.Addr, v(0), islm(500)))
 		send(pxThird, stakingtypes.NewMsgUndelegate(pxThird.Addr, v(0), islm(300)))
 		send(pxThird, authzGrantSend(pxThird, pxOther))
+		send(pxVest, stakingtypes.NewMsgDelegate(pxVest.Addr, v(1), islm(2000)))
+		send(pxOther, vestingtypes.NewMsgConvertIntoVestingAccount(pxOther.Addr, pxVest.Addr, n.Header.Time,
+			toPeriods([]PeriodJ{{Len: 5 * 365 * 86400, Amt: []CoinJ{{Denom: chain.Denom, Amt: "500000000000000000000000"}}}}),
+			toPeriods([]PeriodJ{{Len: 10 * 365 * 86400, Amt: []CoinJ{{Denom: chain.Denom, Amt: "500000000000000000000000"}}}}), true, false, nil))
+		{
+			// a registered coin whose denomination sorts after the (unregistered) native one: the bank precompile must report it
+			cctx, write := n.Ctx().CacheContext()
+			_, err := app.Erc20Keeper.RegisterCoin(cctx, banktypes.Metadata{Description: "example coin", Base: "uxmpl", Display: "xmpl", Name: "uxmpl", Symbol: "XMPL",
+				DenomUnits: []*banktypes.DenomUnit{{Denom: "uxmpl", Exponent: 0}, {Denom: "xmpl", Exponent: 6}}})
+			must(err)
+			write()
+		}
 		// staking approvals from the signer to frames 0 and 1 (through the precompile, as a user would)
 		for _, f := range []int{0, 1} {
 			num, seq := txb.AccInfo(n.Ctx(), app, pxSigner.Addr)
@@ -138,6 +153,7 @@ type PxProgram struct {
 	Direct *PxPre    `json:"direct,omitempty"` // if set: the tx calls the precompile directly from the EOA (no frames)
 	Value  string    `json:"value"`            // tx value in wei
 	SetW   bool      `json:"set_withdraw"`     // prelude step: the signer's withdraw address is set to W before the tx
+	Create bool      `json:"create,omitempty"` // the tx is a contract creation whose init code is frame 0 (a constructor)
 }
 
 type pxGenOpts struct {
@@ -293,6 +309,10 @@ func pxCompile(n *chain.Node, p PxProgram) (evmasm.Program, []common.Address) {
 	for i := range ctxOf {
 		ctxOf[i] = evmasm.FrameAddr(i)
 	}
+	if p.Create && len(ctxOf) > 0 {
+		_, seq := txb.AccInfo(n.Ctx(), n.App, pxSigner.Addr)
+		ctxOf[0] = ethcrypto.CreateAddress(pxSigner.Hex, seq)
+	}
 	// contexts: resolve top-down (children have larger indices)
 	for i, f := range p.Frames {
 		for _, op := range f.Ops {
@@ -346,6 +366,9 @@ func pxPrepare(n *chain.Node, p PxProgram) (evmasm.Program, []common.Address) {
 	}
 	prog, ctxOf := pxCompile(n, p)
 	for i, code := range prog.Compile() {
+		if p.Create && i == 0 {
+			continue // runs as init code of the creating transaction
+		}
 		n.InstallCode(evmasm.FrameAddr(i), code)
 	}
 	return prog, ctxOf
@@ -359,6 +382,10 @@ func pxTxBytes(n *chain.Node, p PxProgram) ([]byte, *big.Int) {
 		to, data = pxCalldata(n, p.Direct, pxSigner.Hex)
 	}
 	value := bigOf(p.Value)
+	if p.Create && p.Direct == nil {
+		prog, _ := pxCompile(n, p)
+		return txb.EthTx(pxSigner, txb.Eth{Type: 0, ChainID: big.NewInt(11235), Nonce: seq, To: nil, Value: value, Gas: 5000000, GasPrice: gwei10, Data: prog.Compile()[0]}), value
+	}
 	return txb.EthTx(pxSigner, txb.Eth{Type: 0, ChainID: big.NewInt(11235), Nonce: seq, To: &to, Value: value, Gas: 5000000, GasPrice: gwei10, Data: data}), value
 }
 
